@@ -767,9 +767,17 @@ def rule_pre(env, shared):
     for b in F.non_test_bodies():
         for bi, blk in enumerate(b.blocks):
             t = blk["term"]
-            if t["k"] != "switch" or not (t["loc"].get("outer_macro") or "").endswith("debug_assert"):
+            if t["k"] != "switch" or t.get("discr_ty") != "bool":
                 continue
-            if t.get("discr_ty") != "bool":
+            # a debug_assert! condition: one successor only panics, with the panic call coming from the macro
+            is_dbg = False
+            for s_ in b.succ(bi):
+                if _only_panics2(b, s_):
+                    for x in b.reachable(s_):
+                        mac = b.term(x)["loc"].get("outer_macro") or ""
+                        if mac.split("::")[-1].startswith("debug_assert"):
+                            is_dbg = True
+            if not is_dbg:
                 continue
             # only the outermost condition switch of the macro (cfg!(debug_assertions) constant switches are skipped)
             if t["discr"]["k"] == "const":
@@ -814,3 +822,17 @@ def rule_pre(env, shared):
                           "a debug_assert! in %s is not entailed at every call site: debug builds panic where release builds "
                           "continue" % env.fname(b), True))
     return out
+
+
+def _only_panics2(b, s):
+    seen = set()
+    st = [s]
+    while st:
+        x = st.pop()
+        if x in seen:
+            continue
+        seen.add(x)
+        if b.term(x)["k"] == "return":
+            return False
+        st.extend(b.succ(x))
+    return True
